@@ -116,7 +116,7 @@ def expected(items, workdir, shards=None, timeout=1500):
     def one(n):
         inf = os.path.join(workdir, "items%d.ndjson" % n)
         outf = os.path.join(workdir, "exp%d.ndjson" % n)
-        write_ndjson(inf, [{"id": it["id"], "module": norm_module(it["module"]), "script": it["script"]}
+        write_ndjson(inf, [{"id": it["id"], "module": norm_module(it["module"]), "script": it["script"], "fuel": it.get("fuel", 4000)}
                            for it in parts[n]])
         res = tlc("Replay", env={"INFILE": inf, "OUTFILE": outf}, workers=1, timeout=timeout)
         tlc_ok(res, "Replay shard %d" % n)
